@@ -29,13 +29,34 @@ class RunCtx:
         self.need([cfg])
         k = (cfg, crate)
         if k not in self._facts:
-            self._facts[k] = factsmod.Facts(self._paths[cfg][crate])
+            try:
+                self._facts[k] = factsmod.Facts(self._paths[cfg][crate])
+            except factsmod.BuildError as e:
+                if 'stale facts' not in str(e) and 'older driver' not in str(e):
+                    raise
+                # the memo entry does not describe the files on disk: drop it and extract again, once
+                import shutil
+                shutil.rmtree(os.path.dirname(self._paths[cfg][crate]), ignore_errors=True)
+                self._paths.pop(cfg, None)
+                self.need([cfg])
+                self._facts[k] = factsmod.Facts(self._paths[cfg][crate])
         return self._facts[k]
 
-    def fixture(self, name, src_dir=None):
-        if name not in self._fixtures:
-            p = factsmod.build_fixture(name, src_dir or os.path.join(VERIF, 'fixtures', name))
-            self._fixtures[name] = factsmod.Facts(p)
+    def fixture(self, name, src_dir=None, need_artefacts=False):
+        """facts of a fixture crate; need_artefacts: the compiled library / derive artefacts in the fixture target
+        directory must be those of the current tree (witness programs compile against them)"""
+        if name not in self._fixtures or (need_artefacts and not factsmod.fixture_artefacts_current(name, src_dir or os.path.join(VERIF, 'fixtures', name))):
+            sd = src_dir or os.path.join(VERIF, 'fixtures', name)
+            p = factsmod.build_fixture(name, sd, need_artefacts=need_artefacts)
+            try:
+                self._fixtures[name] = factsmod.Facts(p)
+            except factsmod.BuildError as e:
+                if 'stale facts' not in str(e) and 'older driver' not in str(e):
+                    raise
+                import shutil
+                shutil.rmtree(os.path.dirname(p), ignore_errors=True)
+                p = factsmod.build_fixture(name, sd, need_artefacts=need_artefacts)
+                self._fixtures[name] = factsmod.Facts(p)
         return self._fixtures[name]
 
 
